@@ -36,6 +36,11 @@ def from_json(j, builders, path=''):
             if b is None:
                 raise NoReplay('no builder for %s' % j['$cls'])
             return b(j, lambda x: from_json(x, builders, path))
+        if '$pydict' in j:
+            return dict(j['$pydict'])
+        if '$pyobj' in j:
+            modname, cname, cargs = j['$pyobj']
+            return getattr(importlib.import_module(modname), cname)(*[tuple(a) if isinstance(a, list) else a for a in cargs])
         if '$blob' in j:
             n = j.get('len', 0)
             tag = (j['$blob'].encode() * (n // max(1, len(j['$blob'])) + 1))[:n]
